@@ -1,9 +1,11 @@
 import Goyang.Model.Process
 import Goyang.Spec.Deviate
 import Goyang.Lemmas.Deviate
+import Goyang.Lemmas.DevExtMain
 /-
 C08 — deviations change exactly what they name, in written order, or are reported.
-Property theorems only; helper lemmas live in Goyang/Lemmas/Deviate.lean.
+Property theorems only; helper lemmas live in Goyang/Lemmas/Deviate.lean and, for the frame across
+module sets, in Goyang/Lemmas/DevExt{Base,Stage,Conv,Main}.lean.
 
 Reading aid.
 * `Spec.Deviate` is the transcription of RFC 7950 §7.20.3.2: `violations p s` lists every condition
@@ -33,6 +35,44 @@ code, see `harness/cmd/corr-c08`, combinations `add/config/leaf/different`, `rep
 None of L1–L3, L5 is in the property's list of conditions that must be reported; S1 is reported.
 `deviate_code_exact` states exactly what the code does, `deviate_matches_rfc_fails` refutes the full
 RFC statement on these witnesses, `deviate_matches_rfc_partial` proves it everywhere else.
+
+The four witness shapes against the property text (re-run on the Go code at /repo 0c84daa with a
+stand-alone program: base module with `leaf l1 {config false}`, `leaf l2`, `leaf-list ll {default a; default b}`
+and one deviating module; outcomes as the `witness_*` theorems say):
+  L1  `deviate add {config true}` on l1: no error, config = true.      RFC: invalid deviation (the property exists).
+  L2  `deviate replace {default x}` on l2: no error, default = [x].    RFC: invalid deviation (nothing to replace).
+  L3  `deviate delete {config true}` on l1: no error, config unset.    RFC: invalid deviation (value differs).
+  S1  `deviate delete {default a}` on ll: one error, ll unchanged.     RFC: valid, default becomes [b].
+L1–L3 are OUTSIDE the claim of C08: the property enumerates the deviations that "cannot be applied" and
+must be reported (missing target, adding a default where one exists, deleting a default or element
+bound that is absent or different, element bounds on a non-list, unresolvable replacement type,
+unknown kind); an `add` of an existing config / mandatory / units / type, a `replace` of an absent
+property and a `delete` of a config / mandatory that is absent or different are not in that list.  The
+code applies them, and what it then leaves at the target is the named property with the statement's
+value (add / replace) or unset (delete) — the RFC effect function, `deviate_code_exact` (3) — and
+nothing else.  S1 is INSIDE the disjunction of the claim ("… or are reported"): the deviation is
+never applied silently or partly, it is refused with an error (`witness_delete_leaflist_default`, and
+`deviate_reported_conditions` for the general case); the library documents the refusal in the source
+(TODO in `ApplyDeviate`) and pins it in its own test ("error case - deviation delete on a leaf-list"),
+so a change would break the unedited test suite.  None of the four is therefore a defect of the code
+with respect to the property text; `deviate_matches_rfc_partial` names exactly these shapes as
+excluded from the stronger "equals RFC 7950 everywhere" statement.
+
+Status of the statements of DESIGN 7.8.
+* `deviate_matches_rfc`: `deviate_code_exact` (all inputs), `deviate_matches_rfc_partial` (all inputs outside
+  L1–L3, S1), refuted in full (`deviate_matches_rfc_fails`, `_fails_strict`).
+* `deviate_written_order`: proved (`deviate_source_order`, `deviate_written_order`, `deviate_written_order_spec`).
+* `deviate_frame`: inside one run `deviate_frame_partial` / `deviate_frame_module` (all inputs); across the
+  runs with and without the deviating modules `frame_across_modules`, under the hypotheses listed there
+  (deviation-only modules loaded last; base without submodules, `uses`, top-level `augment` — restrictions
+  of the proof, checked case by case by the runner's with/without comparison where they do not hold).
+* `deviate_reported`: statement level `claimed_violation_reported`, `deviate_reported_conditions`; chain to
+  `processAll` `deviate_reported`; the two conversion-time conditions (unknown kind, unresolvable type):
+  here `deviate_reported_conversion_partial`, `deviate_reported_unknown_kind_partial` (entry level), completed
+  in Props/C08Bridge.lean (`conversionErrorsReported`, `_loaded`, `_loadTexts`: `processAll` returns errors, for
+  every registry loading can produce; false for registries loading cannot produce,
+  `conversionErrorsReported_needs_loadedShape`).  Nothing of `deviate_reported` is left open.
+* `ignore_not_supported_option`: proved.
 -/
 namespace Goyang.Props.C08
 open Goyang.Model
@@ -302,18 +342,160 @@ theorem deviate_frame_module (reg : Registry) (opts : Opts) (m : Mod) (devs : Li
 
 /-- The full frame statement of the property, across module sets: the run with the deviating modules
 equals the run without them except at targets.  `regWithout` is the registry without the deviating
-modules; the claim is about every location of the run without them.  NOT PROVED here: it needs, on
-top of `deviate_frame_partial`, that loading modules which contain nothing but deviations leaves the
-forest before the deviation stage unchanged for all other modules (`toEntry`, linking, the augment
-loop and `fixChoice` over a larger registry) — that part is checked on every run by the
-correspondence runner, which processes each case with and without the deviating modules on the
-model and on the Go code. -/
+modules; the claim is about every location of the run without them.  PROVED below as
+`frame_across_modules` for registries `regWith` that extend `regWithout` by deviation-only modules
+(`DevExt`), with `targets` = the locations the deviations of the new modules resolve to
+(`newTargets`); what the hypotheses leave out is listed there.  The correspondence runner processes
+every case with and without the deviating modules on the model and on the Go code. -/
 def FrameAcrossModules (regWith regWithout : Registry) (opts : Opts) (plug : Plug)
     (targets : List Loc) : Prop :=
   (processAll regWith opts plug).errors = [] → (processAll regWithout opts plug).errors = [] →
   ∀ (t : Nat) (q : Path) (dd : EData), obsE (processAll regWithout opts plug).forest t q = some dd →
     (∀ loc ∈ targets, ¬ (loc.1 = t ∧ loc.2 <+: q)) →
     obsE (processAll regWith opts plug).forest t q = some dd
+
+open Goyang.Lemmas.DevExt in
+/-- **Every node that no deviation targets is identical to what the same modules yield without the
+deviating modules.**  `B` is the registry without, `X` the registry with the deviating modules `ds`
+(`dk` = their rows of the module table).  Hypotheses (`Lemmas/DevExtBase.lean`, `DevExt`; all are
+decidable conditions on the two registries, see the example below):
+* `X` is `B` with the modules `ds` loaded after it, under new sequence numbers and new table keys;
+* each new module is deviation-only: header statements, imports and deviations (`DeviationOnly`);
+* nobody in `B` imports a new module or belongs to one (stated on the lookups: every import of a
+  module of `B` resolves in `X` to what it resolves to in `B`);
+* the plugged-in type resolution answers the same for the modules of `B` in both registries (`PlugAgree`);
+* restrictions of the present proof, not of the claim: the new modules sort after the modules of `B`
+  (table keys and full names: conversion order, and the swap-remove order of the augment loop, are
+  then the same for the modules of `B`), `B` has no submodules, no `uses` statement (the fuel of the
+  grouping search depends on the size of the registry) and no top-level `augment` statement
+  (`NoAugments`; with augments the two runs visit the pending augments in different orders, and what
+  C07 proves about that is equality of the flat view, not of the forests).
+Conclusion: every location of the run without the new modules that is neither a target of one of
+their deviations nor below one (`newTargets`: the locations their deviation paths resolve to, each at
+its turn in the run with them) shows the same data in the run with them.  The stages, each proved
+insensitive to the new modules for the trees of `B` (`Lemmas/DevExt*.lean`): registry lookups
+(`byId_ext`, `findModuleByPrefix_ext`), `Find` (`find_ext`, `find_tree_old`), conversion
+(`toEntry_env`: the conversion of a statement of `B` is the same in both environments at any two
+sufficient fuels; `toEntry_devOnly`: a deviation-only module files one tree without data nodes and an
+empty row of pending augments), the augment stage and `fixChoice` (`preDev_ext`), the deviations of
+the modules of `B` (`stageFold_ext`), and then `stage_frame` for the deviations of the new modules. -/
+theorem frame_across_modules (B X : Registry) (ds : List Mod) (dk : KeyMap) (opts : Opts) (plug : Plug)
+    (hext : DevExt B X ds dk) (hno : NoAugments B) (hplug : PlugAgree plug B X) :
+    FrameAcrossModules X B opts plug (newTargets B X opts plug) := by
+  intro hX hB t q dd ho hq
+  exact frame_core hext hno hplug opts hX hB t q dd ho hq
+
+open Goyang.Lemmas.DevExt in
+/-- The same from the deviation stage on, without the restriction on augments: if the two runs reach
+the deviation stage with forests that agree on the trees of `B` (`PreDevAgree`: the forest of the run
+with the new modules is that of the run without them plus trees of new modules — what `preDev_ext`
+proves when `B` has no top-level augment), the results agree outside the targets. -/
+theorem frame_across_modules_of_preDev (B X : Registry) (ds : List Mod) (dk : KeyMap) (opts : Opts) (plug : Plug)
+    (hext : DevExt B X ds dk) (hplug : PlugAgree plug B X) (hpre : PreDevAgree B X ds opts plug) :
+    FrameAcrossModules X B opts plug (newTargets B X opts plug) := by
+  intro hX hB t q dd ho hq
+  exact frame_core_of_preDev hext hplug opts hpre hX hB t q dd ho hq
+
+/-! #### non-vacuity -/
+section FrameExample
+open Goyang.Lemmas.DevExt
+
+private def fst_ (file : String) (line : Nat) (kw arg : String) (subs : List Stmt := []) : Stmt :=
+  .mk kw true arg file line 1 subs
+
+/-- `module a { namespace urn:a; prefix a; import b { prefix b; } container c { leaf x { type string; } } }` -/
+private def exA : Stmt := fst_ "a.yang" 1 "module" "a" [fst_ "a.yang" 2 "namespace" "urn:a", fst_ "a.yang" 3 "prefix" "a",
+  fst_ "a.yang" 4 "import" "b" [fst_ "a.yang" 4 "prefix" "b"],
+  fst_ "a.yang" 5 "container" "c" [fst_ "a.yang" 6 "leaf" "x" [fst_ "a.yang" 6 "type" "string"]]]
+/-- `module b { namespace urn:b; prefix b; leaf y { type string; } }` -/
+private def exB : Stmt := fst_ "b.yang" 1 "module" "b" [fst_ "b.yang" 2 "namespace" "urn:b", fst_ "b.yang" 3 "prefix" "b",
+  fst_ "b.yang" 4 "leaf" "y" [fst_ "b.yang" 4 "type" "string"]]
+/-- `module z-dev { namespace urn:z; prefix z; import a { prefix a; } revision 2024-01-01; }` -/
+private def exZ : Stmt := fst_ "z.yang" 1 "module" "z-dev" [fst_ "z.yang" 2 "namespace" "urn:z", fst_ "z.yang" 3 "prefix" "z",
+  fst_ "z.yang" 4 "import" "a" [fst_ "z.yang" 4 "prefix" "a"], fst_ "z.yang" 5 "revision" "2024-01-01"]
+/-- the same with `deviation /a:c/a:x { deviate replace { default w; } }` -/
+private def exZ' : Stmt := fst_ "z.yang" 1 "module" "z-dev" [fst_ "z.yang" 2 "namespace" "urn:z", fst_ "z.yang" 3 "prefix" "z",
+  fst_ "z.yang" 4 "import" "a" [fst_ "z.yang" 4 "prefix" "a"],
+  fst_ "z.yang" 5 "deviation" "/a:c/a:x" [fst_ "z.yang" 6 "deviate" "replace" [fst_ "z.yang" 7 "default" "w"]]]
+
+private def exPlug : Plug :=
+  { tres := { resolve := fun _ _ _ t => (some { dump := t.arg }, []) },
+    identityErrs := fun _ => [], typedefErrs := fun _ => [] }
+
+private def regB : Registry := (Registry.loadAll [exA, exB]).1
+private def regX : Registry := (Registry.loadAll [exA, exB, exZ]).1
+private def regX' : Registry := (Registry.loadAll [exA, exB, exZ']).1
+
+/-- The hypotheses of `frame_across_modules` hold of the three-module set a, b, z-dev (a imports b,
+z-dev imports a and is loaded last), both runs are clean, and the run without z-dev has the leaf
+`/a/c/x` the conclusion speaks about (all evaluated by the kernel); the hypothesis `PreDevAgree` of
+`frame_across_modules_of_preDev` holds of it too. -/
+example : DevExt regB regX [⟨2, exZ⟩] [("z-dev@2024-01-01", 2), ("z-dev", 2)] ∧ NoAugments regB ∧
+    PlugAgree exPlug regB regX ∧
+    (processAll regX {} exPlug).errors = [] ∧ (processAll regB {} exPlug).errors = [] ∧
+    (obsE (processAll regB {} exPlug).forest 0 [.child "c", .child "x"]).isSome = true ∧
+    PreDevAgree regB regX [⟨2, exZ⟩] {} exPlug := by
+  suffices hs : DevExt regB regX [⟨2, exZ⟩] [("z-dev@2024-01-01", 2), ("z-dev", 2)] ∧ NoAugments regB ∧
+      PlugAgree exPlug regB regX from
+    ⟨hs.1, hs.2.1, hs.2.2, by decide +kernel, by decide +kernel, by decide +kernel, preDev_ext hs.1 hs.2.1 hs.2.2 {}⟩
+  refine ⟨⟨rfl, by decide +kernel, rfl, rfl, by decide +kernel, by decide +kernel, by decide +kernel, by decide +kernel,
+    by decide +kernel, ?_, ?_, by decide +kernel, by decide +kernel⟩, ?_, fun _ _ _ _ => rfl⟩
+  · intro m hm i hi
+    have hB : regB.mods = [⟨0, exA⟩, ⟨1, exB⟩] := rfl
+    rw [hB] at hm
+    simp only [List.mem_cons, List.not_mem_nil, or_false] at hm
+    rcases hm with rfl | rfl
+    · have : Mod.imports ⟨0, exA⟩ = [fst_ "a.yang" 4 "import" "b" [fst_ "a.yang" 4 "prefix" "b"]] := rfl
+      rw [this] at hi
+      simp only [List.mem_cons, List.not_mem_nil, or_false] at hi
+      subst hi
+      rfl
+    · have : Mod.imports ⟨1, exB⟩ = [] := rfl
+      rw [this] at hi
+      cases hi
+  · intro m hm
+    have hB : regB.mods = [⟨0, exA⟩, ⟨1, exB⟩] := rfl
+    rw [hB] at hm
+    simp only [List.mem_cons, List.not_mem_nil, or_false] at hm
+    rcases hm with rfl | rfl <;> rfl
+  · intro m hm
+    have hB : regB.mods = [⟨0, exA⟩, ⟨1, exB⟩] := rfl
+    rw [hB] at hm
+    simp only [List.mem_cons, List.not_mem_nil, or_false] at hm
+    rcases hm with rfl | rfl <;> rfl
+
+/-- … and with a real deviation in the new module (`deviation /a:c/a:x { deviate replace { default w; } }`)
+the hypotheses on the registries hold as well.  (That both runs are clean cannot be evaluated by the
+kernel here: applying a deviation goes through `String.splitOn`, which does not reduce; the
+correspondence runner runs such sets with and without the deviating module.) -/
+example : DevExt regB regX' [⟨2, exZ'⟩] [("z-dev", 2)] ∧ NoAugments regB ∧ PlugAgree exPlug regB regX' := by
+  refine ⟨⟨rfl, by decide +kernel, rfl, rfl, by decide +kernel, by decide +kernel, by decide +kernel, by decide +kernel,
+    by decide +kernel, ?_, ?_, by decide +kernel, by decide +kernel⟩, ?_, fun _ _ _ _ => rfl⟩
+  · intro m hm i hi
+    have hB : regB.mods = [⟨0, exA⟩, ⟨1, exB⟩] := rfl
+    rw [hB] at hm
+    simp only [List.mem_cons, List.not_mem_nil, or_false] at hm
+    rcases hm with rfl | rfl
+    · have : Mod.imports ⟨0, exA⟩ = [fst_ "a.yang" 4 "import" "b" [fst_ "a.yang" 4 "prefix" "b"]] := rfl
+      rw [this] at hi
+      simp only [List.mem_cons, List.not_mem_nil, or_false] at hi
+      subst hi
+      rfl
+    · have : Mod.imports ⟨1, exB⟩ = [] := rfl
+      rw [this] at hi
+      cases hi
+  · intro m hm
+    have hB : regB.mods = [⟨0, exA⟩, ⟨1, exB⟩] := rfl
+    rw [hB] at hm
+    simp only [List.mem_cons, List.not_mem_nil, or_false] at hm
+    rcases hm with rfl | rfl <;> rfl
+  · intro m hm
+    have hB : regB.mods = [⟨0, exA⟩, ⟨1, exB⟩] := rfl
+    rw [hB] at hm
+    simp only [List.mem_cons, List.not_mem_nil, or_false] at hm
+    rcases hm with rfl | rfl <;> rfl
+
+end FrameExample
 
 /-! ### deviate_reported -/
 
